@@ -1,6 +1,8 @@
+mod distinct;
 mod emit;
 mod env;
 mod fmts;
+mod hostile;
 mod lexu;
 mod model;
 mod ops;
@@ -8,6 +10,7 @@ mod report;
 mod universe;
 mod props;
 mod replay;
+mod strings;
 mod watch;
 
 use report::Tier;
